@@ -22,7 +22,10 @@ SPELL = {
     "O": ["~O", "~Other", "~Other Information", "~OTHER", "~O ------"],
     "A": ["~A", "~ASCII", "~Ascii Log Data", "~ASCII LOG DATA", "~A  DEPTH  K1"],
 }
-CUSTOM = ["~Xtra", "~Zone tops", "~Bit record", "~Tops", "~xtra", "~Remarks area", "~Units table", "~Quality"]
+CUSTOM = ["~Xtra", "~Zone tops", "~Bit record", "~Tops", "~xtra", "~Remarks area", "~Units table", "~Quality",
+          "~TOPS_DATA", "~Mud_database", "~Run_1 info", "~Log_definition", "~zone_data", "~Inclinometry_Datafile", "~Tops_Data"]
+PRELUDE = ("~V\nVERS. 2.0 : prelude\nWRAP. NO : prelude\n~W\nNULL. -5 : prelude null\nPREW. earlier : prelude item\n~C\nPD.M : prelude\nPA.U : prelude\n"
+           "~P\nPREP. 1 : prelude\n~O\nprelude remark one\nprelude remark two\n~A\n1 2\n3 4\n")
 STEER = [["NULL", "", "1002", "tag steer"], ["WRAP", "", "YES", "tag steer"], ["DLM", "", "COMMA", "tag steer"],
          ["VERS", "", "1.2", "tag steer"], ["NULL", "", "2002", "tag steer"], ["DLM", "", "TAB", "tag steer"]]
 
@@ -70,7 +73,7 @@ class C05(Prop):
         "expected placement: ~V -> sections['Version'], ~W -> 'Well', ~C -> 'Curves', ~P -> 'Parameter', ~O -> 'Other' "
         "(in either case, as the documentation tabulates), custom sections under their own title without the tilde",
         "mnemonic_case='preserve' is used so that tags compare literally; values are compared numerically when numeric",
-        "section titles of custom sections start with a letter other than V/W/C/P/O/A in either case and contain no '_'",
+        "section titles of custom sections start with a letter other than V/W/C/P/O/A in either case (titles with '_', '_DATA', '_Data' included: the file declares VERS 1.2 or 2.0)",
     ]
     quick = {"runs": 40000, "wall": 60}
     thorough = {"runs": 300000, "wall": 900}
@@ -129,6 +132,8 @@ class C05(Prop):
         return {"vers": vers, "sections": [v] + pool, "cols": cols, "rows": rows, "final_newline": g.random() < 0.7,
                 "nkw": neutral_read_kw(g, exclude=("ignore_data",)), "engine": g.choice(["numpy", "normal"]), "ignore_data": g.random() < 0.15, "case": g.choice(["preserve", "preserve", "upper", "lower"]),
                 "channel": draw_read_channel(g, ascii_only=True),
+                # the reading LASFile object has read another file (with V, W, C, P, O, A sections) before
+                "prelude": g.random() < 0.08 and all(k in [s0["kind"] for s0 in pool] for k in "WCPO"),
                 "policy": Policy.draw(st.io).to_json()}
 
     def run(self, sc):
@@ -140,7 +145,14 @@ class C05(Prop):
                 kw = fix_kw(dict(sc.get("nkw") or {}, engine=sc["engine"], mnemonic_case=sc.get("case", "preserve")))
                 if sc.get("ignore_data"):
                     kw["ignore_data"] = True
-                las = read_via(fs, text, sc["channel"], kw, tag="c05")
+                into = None
+                if sc.get("prelude"):
+                    import io
+                    import lasio
+                    into = lasio.LASFile()
+                    into.read(io.StringIO(PRELUDE))
+                    res.count("read-into-used-object")
+                las = read_via(fs, text, sc["channel"], kw, tag="c05", into=into)
             except Exception as e:
                 res.events = fs.seq
                 res.violate("C05.unreadable", "conformant document could not be read: %s: %s | titles=%r" % (
